@@ -40,13 +40,13 @@ fn probe_image_r(image: Vec<u8>, cfg: &Config, cx: &redb_verif_harness::codec::C
             Err(e) => {
                 let e: redb::Error = e.into();
                 if let Some((pre, h)) = &pre {
-                    *decided.lock().unwrap() = Some(json!({"e": "recover", "pre": pre, "post": redb_verif_harness::recover::post_of(Err(redb_verif_harness::exec::err_name(&e).to_string()), h)}));
+                    *decided.lock().unwrap() = Some(json!({"e": "recover", "src": "crash", "pre": pre, "post": redb_verif_harness::recover::post_of(Err(redb_verif_harness::exec::err_name(&e).to_string()), h)}));
                 }
                 return json!({"obs": {"error": redb_verif_harness::exec::err_name(&e), "msg": e.to_string()}});
             }
         };
         if let Some((pre, h)) = &pre {
-            *decided.lock().unwrap() = Some(json!({"e": "recover", "pre": pre, "post": redb_verif_harness::recover::post_of(Ok(&store.bytes()), h)}));
+            *decided.lock().unwrap() = Some(json!({"e": "recover", "src": "crash", "pre": pre, "post": redb_verif_harness::recover::post_of(Ok(&store.bytes()), h)}));
         }
         let obs = match observe(&db, cx) {
             Ok(o) => o,
@@ -126,7 +126,7 @@ fn probe_image_r(image: Vec<u8>, cfg: &Config, cx: &redb_verif_harness::codec::C
         && let Some((pre, _)) = &pre
     {
         // the open itself panicked
-        decided = Some(json!({"e": "recover", "pre": pre, "post": {"err": "panic"}}));
+        decided = Some(json!({"e": "recover", "src": "crash", "pre": pre, "post": {"err": "panic"}}));
     }
     (j, rec, decided)
 }
